@@ -43,6 +43,19 @@ SeedNonces == {%s}
 """
 
 
+def absorb(chk, recs, label):
+    """A property violation takes precedence over model mismatches of the same run (the shared absorb stops at
+    the first mismatch): when the driver found violations that are not known findings, its mismatch records
+    are set aside and noted, so that the check ends with VIOLATION / exit 1 rather than exit 2."""
+    known = {k["key"] for k in chk.known}
+    fresh = [r for r in recs if r.get("kind") == "violation" and r.get("key") not in known]
+    mism = [r for r in recs if r.get("kind") == "mismatch"]
+    if fresh and mism:
+        chk.notes.append("%s: %d model mismatches set aside because the run found violations" % (label, len(mism)))
+        recs = [r for r in recs if r.get("kind") != "mismatch"]
+    chk.absorb(recs, label)
+
+
 def run(chk):
     thorough = chk.tier == "thorough"
     rng = random.Random(vf.seed() * 31 + 10)
@@ -59,7 +72,7 @@ def run(chk):
     path = os.path.join(vf.scratch(), "ap.jsonl")
     vf.write_json_lines(path, behs)
     recs, _ = vf.run_driver(binary, ["replay", path])
-    chk.absorb(recs, "replay proofs on AuxPow.Check")
+    absorb(chk, recs, "replay proofs on AuxPow.Check")
 
     # binding self-test: an accepted valid proof relabelled "does not commit" must be reported
     good = [b for b in behs if b[-1]["args"]["mut"] == "none" and b[-1]["exp"]["check"] == "accept"]
